@@ -12,7 +12,7 @@ def model_text(ident, role):
     s = ident if role == "state" else "x"
     p = ident if role == "param" else "a"
     w = ident if role == "inter" else "w"
-    return (f"states({s} = 1.5, y = 0.5)\nparameters({p} = 2)\n{w} = ({p} * {s} + y) * ({p} * {s} + y)\nu = {w} + 1\nv = (u + y) / (1 + (u + y) * (u + y))\nd{s}_dt = {w} - {s} + v\ndy_dt = {s} * {p}\n"), s, p, w
+    return (f"states({s} = 1.5, y = 0.5)\nparameters({p} = 2)\n{w} = ({p} * {s} + y) * ({p} * {s} + y)\nu = {w} - 18\nv = (u + y) / (2 + (u + y))\nd{s}_dt = {w} - {s} + v\ndy_dt = {s} * {p}\n"), s, p, w
 
 
 def check_ident(rec, backend, workdir=None):
@@ -40,6 +40,7 @@ def check_ident(rec, backend, workdir=None):
         out["outcome"] = f"rejected-at-generation:{type(ex).__name__}"
         return out
     out["outcome"] = "generated"
+    stats = {"compared": 0, "undefined": 0}
     ren = lambda n: "ID" if n == ident else ("dID_dt" if n == f"d{ident}_dt" else n)  # noqa: E731
     try:
         inp = rec["input"]
@@ -51,7 +52,6 @@ def check_ident(rec, backend, workdir=None):
         if sorted(mod.index("state", n) for n in sn) != [0, 1] or mod.index("parameter", p) != 0:
             out["problems"].append({"kind": "index", "message": "index functions are not a bijection"})
         t, dt = qf(inp["t"]), qf(inp["dt"])
-        stats = {"compared": 0, "undefined": 0}
         for fn, dtv, names, kind, exp, key in (("rhs", None, sn, "state", rec["den"], lambda n: ren(f"d{n}_dt")),
                                                ("monitor_values", None, [w, "u", "v", f"d{s}_dt", "dy_dt"], "monitor", rec["den"], ren),
                                                ("explicit_euler", dt, sn, "state", rec["euler"], ren),
@@ -81,6 +81,7 @@ def check_ident(rec, backend, workdir=None):
         out["problems"].append({"kind": "runtime-error", "fn": "harness-sequence", "message": f"{type(ex).__name__}: {ex}"[:200]})
     finally:
         mod.close()
+        out["compared"], out["undefined"] = stats["compared"], stats["undefined"]
     return out
 
 
@@ -130,7 +131,7 @@ def check_ident_missing(rec, backend):
     from . import gx
     ident = rec["id"]
     text = (f'parameters("A", {ident} = 2)\nstates("A", z = 1)\nexpressions("A")\ndz_dt = -z\n'
-            f'states("B", x = 1.5, y = 0.5)\nexpressions("B")\nw = ({ident} * x + y) * ({ident} * x + y)\nu = w + 1\nv = (u + y) / (1 + (u + y) * (u + y))\ndx_dt = w - x + v\ndy_dt = x * {ident}\n')
+            f'states("B", x = 1.5, y = 0.5)\nexpressions("B")\nw = ({ident} * x + y) * ({ident} * x + y)\nu = w - 18\nv = (u + y) / (2 + (u + y))\ndx_dt = w - x + v\ndy_dt = x * {ident}\n')
     out = {"id": ident, "role": "missing", "backend": backend, "text": text, "outcome": None, "problems": []}
     try:
         ode = gx.load(text)
